@@ -13,6 +13,15 @@
 (*   "csolved" cancel the context while evaluating, report solved          *)
 (* Independently the scripted OBSERVER may cancel the context while it is   *)
 (* being notified (ocancel: a set of notifications <<kind, trial, gen>>).   *)
+(* The statement of C20 fixes that a population is turned over between two  *)
+(* evaluations of a trial and never after a solved generation; it does not  *)
+(* fix the MOMENT.  lazy = FALSE is the code as found (turnover right after *)
+(* an unsolved evaluation, failing on a cancelled context); lazy = TRUE is  *)
+(* the other admissible implementation (turnover just before the next       *)
+(* evaluation, after the cancellation test): no turnover after the last     *)
+(* generation of a trial, and a generation during whose evaluation the      *)
+(* context was cancelled is still recorded and notified.  The conformance   *)
+(* check accepts a run that either variant explains.                        *)
 (* One action per step of experiment_execute.go that is visible to the     *)
 (* evaluator, the observer or the caller.  Populations are abstracted to   *)
 (* <<trial, turnovers>>: a fresh spawn gives <<r, 0>>, an epoch turnover   *)
@@ -22,6 +31,7 @@ EXTENDS Integers, Sequences, FiniteSets
 
 CONSTANTS NumRuns, NumGens   \* configured trials and maximal generations per trial
 VARIABLES script, observer,  \* inputs
+          lazy,              \* which admissible turnover discipline the implementation follows (see above)
           ocancel,           \* inputs: the observer notifications during which the (scripted) observer cancels the context
           pc, run, gen, pop, cancelled,
           evals,             \* evaluator log: <<trial, generation, population>>
@@ -30,15 +40,15 @@ VARIABLES script, observer,  \* inputs
           trials,            \* recorded trials: [id, gens]
           finalPops,         \* population of each recorded trial when the trial finished
           err                \* "" | "fail" | "cancelled"
-vars == <<script, observer, ocancel, pc, run, gen, pop, cancelled, evals, calls, cur, trials, finalPops, err>>
+vars == <<script, observer, ocancel, lazy, pc, run, gen, pop, cancelled, evals, calls, cur, trials, finalPops, err>>
 
 Outcomes == {"ok", "solved", "fail", "failctx", "cancel", "csolved"}
 Fails == {"fail", "failctx"}
 Notify(c) == IF observer THEN Append(calls, c) ELSE calls
 CancelledBy(c) == cancelled \/ (observer /\ c \in ocancel)
 
-InitWith(s, o, oc) ==
-    /\ script = s /\ observer = o /\ ocancel = oc
+InitWith(s, o, oc, lz) ==
+    /\ script = s /\ observer = o /\ ocancel = oc /\ lazy = lz
     /\ pc = "trial" /\ run = 0 /\ gen = 0 /\ pop = <<-1, 0>> /\ cancelled = FALSE
     /\ evals = <<>> /\ calls = <<>> /\ cur = <<>> /\ trials = <<>> /\ finalPops = <<>> /\ err = ""
 
@@ -50,14 +60,16 @@ StartTrial ==
             /\ calls' = Notify(<<"start", run, -1>>) /\ cancelled' = CancelledBy(<<"start", run, -1>>)
             /\ pc' = "gen"
        ELSE /\ pc' = "done" /\ UNCHANGED <<pop, gen, cur, calls, cancelled>>
-    /\ UNCHANGED <<script, observer, ocancel, run, evals, trials, finalPops, err>>
+    /\ UNCHANGED <<script, observer, ocancel, lazy, run, evals, trials, finalPops, err>>
 \* top of the generation loop: leave the loop at NumGens, stop on a cancelled context
 GenLoop ==
     /\ pc = "gen"
-    /\ IF gen >= NumGens THEN pc' = "finish" /\ err' = err
-       ELSE IF cancelled THEN pc' = "done" /\ err' = "cancelled"
-       ELSE pc' = "eval" /\ err' = err
-    /\ UNCHANGED <<script, observer, ocancel, run, gen, pop, cancelled, evals, calls, cur, trials, finalPops>>
+    /\ IF gen >= NumGens THEN pc' = "finish" /\ err' = err /\ pop' = pop
+       ELSE IF cancelled THEN pc' = "done" /\ err' = "cancelled" /\ pop' = pop
+       ELSE /\ pc' = "eval" /\ err' = err
+            \* lazy: the postponed turnover of the previous (unsolved) generation happens here
+            /\ pop' = IF lazy /\ gen > 0 THEN <<pop[1], pop[2] + 1>> ELSE pop
+    /\ UNCHANGED <<script, observer, ocancel, lazy, run, gen, cancelled, evals, calls, cur, trials, finalPops>>
 \* evaluator.GenerationEvaluate
 Evaluate ==
     /\ pc = "eval"
@@ -66,14 +78,14 @@ Evaluate ==
        /\ cancelled' = (cancelled \/ o \in {"cancel", "csolved"})
        /\ IF o \in Fails THEN pc' = "done" /\ err' = "fail"
           ELSE IF o \in {"solved", "csolved"} THEN pc' = "record" /\ err' = err
-          ELSE pc' = "epoch" /\ err' = err
-    /\ UNCHANGED <<script, observer, ocancel, run, gen, pop, calls, cur, trials, finalPops>>
+          ELSE pc' = (IF lazy THEN "record" ELSE "epoch") /\ err' = err
+    /\ UNCHANGED <<script, observer, ocancel, lazy, run, gen, pop, calls, cur, trials, finalPops>>
 \* epochExecutor.NextEpoch (only for a generation that was not solved); fails on a cancelled context
 Turnover ==
     /\ pc = "epoch"
     /\ IF cancelled THEN pc' = "done" /\ err' = "cancelled" /\ pop' = pop
        ELSE pc' = "record" /\ err' = err /\ pop' = <<pop[1], pop[2] + 1>>
-    /\ UNCHANGED <<script, observer, ocancel, run, gen, cancelled, evals, calls, cur, trials, finalPops>>
+    /\ UNCHANGED <<script, observer, ocancel, lazy, run, gen, cancelled, evals, calls, cur, trials, finalPops>>
 \* append the generation to the trial, notify EpochEvaluated; a solved generation ends the trial
 Record ==
     /\ pc = "record"
@@ -81,7 +93,7 @@ Record ==
        /\ cur' = Append(cur, <<gen, solved>>)
        /\ calls' = Notify(<<"epoch", run, gen>>) /\ cancelled' = CancelledBy(<<"epoch", run, gen>>)
        /\ IF solved THEN pc' = "finish" /\ gen' = gen ELSE pc' = "gen" /\ gen' = gen + 1
-    /\ UNCHANGED <<script, observer, ocancel, run, pop, evals, trials, finalPops, err>>
+    /\ UNCHANGED <<script, observer, ocancel, lazy, run, pop, evals, trials, finalPops, err>>
 \* store the trial, notify TrialRunFinished exactly once, next trial
 FinishTrial ==
     /\ pc = "finish"
@@ -89,7 +101,7 @@ FinishTrial ==
     /\ finalPops' = Append(finalPops, pop)
     /\ calls' = Notify(<<"finish", run, -1>>) /\ cancelled' = CancelledBy(<<"finish", run, -1>>)
     /\ run' = run + 1 /\ pc' = "trial"
-    /\ UNCHANGED <<script, observer, ocancel, gen, pop, evals, cur, err>>
+    /\ UNCHANGED <<script, observer, ocancel, lazy, gen, pop, evals, cur, err>>
 Next == StartTrial \/ GenLoop \/ Evaluate \/ Turnover \/ Record \/ FinishTrial
 
 (* ---------------- C20 as invariants over the logs ---------------- *)
